@@ -27,7 +27,7 @@ UNMODELLED = {
 PARTIAL = [
     "classes with a hand-written layer and NO Lean model (= knownUnmodelled of Props/C09.lean): "
     + "; ".join(f"{k} — {v}" for k, v in UNMODELLED.items()),
-    "C09_layer_broadcastjoin is proven for the unfiltered expression; with a `_partitions` selection the layer numbers its outputs by ORIGINAL partition number (C09_layer_broadcastjoin_filtered_counterexample; finding D66, listed under C11, replayed here as a cross-listed witness)",
+    "C09_layer_broadcastjoin is proven for the unfiltered expression; with a `_partitions` selection the layer numbers its outputs by ORIGINAL partition number (C09_layer_broadcastjoin_filtered_counterexample; open finding D66b = the C09 face of D66)",
     "CreateOverlappingPartitions: integer windows are modelled; timedelta windows (_tail_timedelta/_head_timedelta branches) only through the proven checker on real graphs (programs rolling_timedelta, shift_timedelta)",
     "ResolveOverlappingDivisions: keys and references are modelled, the nesting of drop_overlap/get_overlap inside one task is not",
     "MergeAsofIndexed: the keys (name, pos, d, phase) of prefix/suffix_reduction are modelled in closed form (level, block); that the loops produce exactly these keys is established by exact graph equality for the partition counts run (quick: up to 5 right partitions, thorough: up to 17), not by a proof about the while-loops",
@@ -35,7 +35,7 @@ PARTIAL = [
     "FromGraph / _DelayedExpr are well formed RELATIVE to the imported graph (closed, acyclic, containing the requested keys; no task reading the Delayed's own key): foreign graphs are only checked, not modelled",
     "the `listing = domain` half of exact graph equality (Listed) is proven for the flat and gather models and TreeReduce (C02_tree_dict); for the other models the driver renders a listed key without task as !undefined, which the exact ties would show, but a task defined outside the listing would go unnoticed",
     "inputs of the models (each checked against the theorem's hypothesis on real values, T3): concat pass-through flags, _get_partitions results, pair_partitions result, fusion step, tree_width/tree_groups, repartition boundaries / nsplits, TaskShuffle stage arithmetic",
-    "observation reported as CANDIDATE-FINDING, not counted: x.persist() + x (fuse=False) defines the keys of x twice (literal and task, equal values) — by design of persist",
+    "open finding D104: x.persist() + x (fuse=False) defines the keys of x twice (literal and task, equal values) — by design of persist",
 ]
 EXPLANATION = (
     "Theorems: a plan of LayerOK layers merges into a closed, ranked graph defining every output key (any plan size); "
@@ -374,32 +374,24 @@ def support(ctx, broken):
                                         detail="; ".join(problems)))
         if len(sup.failures) >= 5:
             break
-    # D66 (open, listed under C11) is a C09 violation as well: keep it visible, do not count it as new
+    # D66 (BroadcastJoin under a partition selection) is a C09 violation as well: open finding D66b
     try:
         pr = _bjoin_filtered_witness()
     except Exception as ex:  # noqa: BLE001
         pr = [f"witness raised {type(ex).__name__}"]
+    sup.executed += 1
     if pr:
-        fl = Failure(sig={"kind": "layer-contract", "class": "BroadcastJoin", "what": "output keys numbered by original partition under a _partitions selection", "cross": "D66"},
-                     case={"space": "witness", "program": "bjoin_filtered"}, detail="; ".join(pr))
-        fid = _cross_listed(fl)
-        if fid:
-            sup.count(f"cross-listed:{fid}")
-            print(f"KNOWN-FINDING(cross-listed {CROSS_LISTED[fid][0]}/{fid}): property=C09 BroadcastJoin under a partition selection: {fl.detail[:200]}")
-        else:
-            sup.failures.append(fl)
+        sup.failures.append(Failure(sig={"kind": "layer-contract", "class": "BroadcastJoin", "what": "output keys numbered by original partition under a _partitions selection"},
+                                    case={"space": "witness", "program": "bjoin_filtered"}, detail="; ".join(pr)))
+    # a persisted collection combined with the expression it materialised: open finding D104
     try:
         pr = _persist_overlap_witness()
     except Exception as ex:  # noqa: BLE001
         pr = []
         sup.count(f"persist-witness-raised:{type(ex).__name__}")
+    sup.executed += 1
     if pr:
-        sig = CANDIDATES["persist-key-overlap"]
-        if _triaged(sig):
-            sup.failures.append(Failure(sig=dict(sig), case={"space": "witness", "program": "persist_overlap"}, detail="; ".join(pr)))
-        else:
-            sup.count("candidate:persist-key-overlap")
-            print(f"CANDIDATE-FINDING: property=C09 sig={sig} x=df+1; p=x.persist(); (p+x).optimize(fuse=False): {pr[0][:160]}")
+        sup.failures.append(Failure(sig=dict(CANDIDATES["persist-key-overlap"]), case={"space": "witness", "program": "persist_overlap"}, detail="; ".join(pr)))
     sup.samples = [{"program": r[1], "space": r[0]} for r in runs[:3]]
     return sup
 
